@@ -65,17 +65,21 @@ func (v *Val) String() string {
 type State struct {
 	reg  map[string]string
 	held map[string]string // lock key -> "W" | "R"
+	heldBase map[string]*Val // lock key -> the object whose lock it is (for the held locks)
 	// ghost: snapshot taken at first Lock of a monitor function
 	monOld *State
 }
 
 func (s *State) clone() *State {
-	n := &State{reg: make(map[string]string, len(s.reg)), held: make(map[string]string, len(s.held)), monOld: s.monOld}
+	n := &State{reg: make(map[string]string, len(s.reg)), held: make(map[string]string, len(s.held)), monOld: s.monOld, heldBase: map[string]*Val{}}
 	for k, v := range s.reg {
 		n.reg[k] = v
 	}
 	for k, v := range s.held {
 		n.held[k] = v
+	}
+	for k, v := range s.heldBase {
+		n.heldBase[k] = v
 	}
 	return n
 }
